@@ -93,6 +93,23 @@ def window_shape(rep: Report, rid: str, prog: Program, qual: str, bucket: Any, w
     return True
 
 
+def _keys_of_thresholds(t: Any) -> bool:
+    """the argument adds exactly the classes that have a threshold: the `class_thresholds` parameter (or what it was
+    stored as) itself - iterating a mapping yields its keys -, its `.keys()`, or a set / list / tuple made of either"""
+    if not isinstance(t, tuple) or not t:
+        return False
+    if t == ("param", "class_thresholds") or t == attr(SELF, "_class_thresholds"):
+        return True
+    if t[0] == "pure" and t[1] == ".keys" and len(t[2]) == 1:
+        return _keys_of_thresholds(t[2][0])
+    if t[0] == "pure" and t[1] in ("set", "frozenset", "list", "tuple", "dict", "new set", "new frozenset", "new dict") and len(t[2]) == 1:
+        return _keys_of_thresholds(t[2][0])
+    if t[0] == "bool" and t[1] == "or" and len(t[2]) == 2:
+        # `class_thresholds or {}`
+        return _keys_of_thresholds(t[2][0])
+    return False
+
+
 def check_note_failure(rep: Report, prog: Program) -> None:
     rep.rule("R6.2", "_note_failure: prune(B, now) then B.append(now) precede every len(B) that feeds the result; result == len(class bucket) >= class threshold (when one exists) or len(_failures) >= _failure_threshold; _prune/_clear_failures shapes; container ownership")
     fi = prog.func(f"{CB}._note_failure")
@@ -321,7 +338,7 @@ def check_constructor(rep: Report, prog: Program) -> None:
                 got = frozenset(x[2] if isinstance(x, tuple) and x and x[0] == "enum" else x for x in got)
             if got != want[cname]:
                 problem = f"with trip_on={cname} the counted classes start as {sorted(got) if got is not None else show(st.get('_trip_on'))}, expected {sorted(want[cname])}"
-            elif not any(e.recv == st["_trip_on"] and e.args and "class_thresholds" in show(e.args[0]) and ".keys" in show(e.args[0]) for e in ups):
+            elif not any(e.recv == st["_trip_on"] and e.args and _keys_of_thresholds(e.args[0]) for e in ups):
                 problem = "the classes that have a class threshold are not added to the counted classes (trip_on.update(class_thresholds.keys()))"
             else:
                 for k, src in (("_failure_threshold", "failure_threshold"), ("_window_s", "window_s"), ("_recovery_timeout_s", "recovery_timeout_s"), ("_clock", "clock")):
